@@ -2,6 +2,7 @@ package props
 
 import (
 	"fmt"
+	kafka "github.com/segmentio/kafka-go"
 	"sort"
 	"strings"
 	"time"
@@ -105,6 +106,7 @@ func genWriterFaults(r *core.Rand, cfg *wCfg, slow bool) {
 }
 
 func runC01(c *core.Ctx) {
+	kafka.VerifSetPoints(wHookPoints())
 	c.CasesPar("writer", c.N(1500, 110000), 4, func(k *core.Case) {
 		r := k.R
 		cfg := genWriterCfg(r, "")
